@@ -406,9 +406,28 @@ func loadSeed(s string) ([]byte, string, error) {
 		}
 		return nil, "", fmt.Errorf("unknown minimal document %q", s)
 	}
+	if strings.HasPrefix(s, "i:") {
+		d, ok := inline[s[2:]]
+		if !ok {
+			return nil, "", fmt.Errorf("unknown inline document %q", s)
+		}
+		return []byte(d), "", nil
+	}
 	abs := filepath.Join(ev.RepoDir(), filepath.FromSlash(strings.TrimPrefix(s, "f:")))
 	b, err := os.ReadFile(abs)
 	return b, abs, err
+}
+
+// fixtureOrInline reads "i:<name>" from the inline table, anything else from the extractor's package directory.
+func fixtureOrInline(inst filesystem.Extractor, ref string) ([]byte, error) {
+	if strings.HasPrefix(ref, "i:") {
+		d, ok := inline[ref[2:]]
+		if !ok {
+			return nil, fmt.Errorf("unknown inline document %q", ref)
+		}
+		return []byte(d), nil
+	}
+	return os.ReadFile(filepath.Join(ev.RepoDir(), pkgDir(inst), filepath.FromSlash(ref)))
 }
 
 // harnessErr marks problems of the harness or its tables (never a violation).
@@ -480,7 +499,7 @@ func buildScene(exName string, candIdx int, seedAbs string) (*scene, error) {
 	}
 	sort.Strings(comps)
 	for _, p := range comps {
-		b, err := os.ReadFile(filepath.Join(ev.RepoDir(), pkgDir(inst), filepath.FromSlash(c.Comp[p])))
+		b, err := fixtureOrInline(inst, c.Comp[p])
 		if err != nil {
 			return nil, harnessErr{err.Error()}
 		}
@@ -488,6 +507,18 @@ func buildScene(exName string, candIdx int, seedAbs string) (*scene, error) {
 			return nil, harnessErr{err.Error()}
 		}
 		if p == c.Path && c.mutPath() != c.Path {
+			sc.rewrite = b
+		}
+	}
+	if c.Primary != "" && c.mutPath() != c.Path {
+		b, err := fixtureOrInline(inst, c.Primary)
+		if err != nil {
+			return nil, harnessErr{err.Error()}
+		}
+		if err := e.put(c.Path, b, c.Perm); err != nil {
+			return nil, harnessErr{err.Error()}
+		}
+		if sp.RealDir {
 			sc.rewrite = b
 		}
 	}
@@ -529,7 +560,7 @@ func buildScene(exName string, candIdx int, seedAbs string) (*scene, error) {
 			}
 		}
 	}
-	if free("etc/os-release") {
+	if !c.NoOSRelease && free("etc/os-release") {
 		if e.put("etc/os-release", []byte(osRelease), 0) == nil {
 			sc.extra["etc/os-release"] = true
 		}
@@ -540,7 +571,7 @@ func buildScene(exName string, candIdx int, seedAbs string) (*scene, error) {
 func (sc *scene) place(data []byte) error {
 	sc.e.reset()
 	if sc.rewrite != nil {
-		if err := sc.e.put(sc.c.Path, sc.rewrite, 0); err != nil {
+		if err := sc.e.put(sc.c.Path, sc.rewrite, sc.c.Perm); err != nil {
 			return err
 		}
 	}
@@ -630,6 +661,29 @@ func shortSite(stack string) string {
 	return strings.TrimPrefix(ev.PanicSite(stack), "extractor/filesystem/")
 }
 
+// causeKey is `<extractor>:<panic site>`; when the site lies in a package shared by several extractors
+// (os/osrelease, internal/mavenutil, ...) the key is `<shared package>:<site>` so that one root cause
+// reached through many extractors stays one key.
+func causeKey(exName, infix, stack string) string {
+	site := ev.PanicSite(stack)
+	short := strings.TrimPrefix(site, "extractor/filesystem/")
+	owner := exName
+	if inst := newExtractor(exName); inst != nil && site != "unknown-site" && !strings.HasPrefix(site, "dep:") {
+		sitePkg := site
+		if k := strings.LastIndex(site, "/"); k >= 0 {
+			if d := strings.Index(site[k:], "."); d >= 0 {
+				sitePkg = site[:k+d]
+			}
+		} else if d := strings.Index(site, "."); d >= 0 {
+			sitePkg = site[:d]
+		}
+		if sitePkg != pkgDir(inst) {
+			owner = path.Base(sitePkg)
+		}
+	}
+	return owner + ":" + infix + short
+}
+
 // errClass is the first 48 characters of the error text with paths, quoted text and digits removed.
 func errClass(err error, sc *scene) string {
 	s := err.Error()
@@ -707,7 +761,7 @@ func runExtractUnit(u unit) error {
 	// the placement must be one the extractor accepts (fresh instance: os/nix remembers what it saw)
 	var accepted bool
 	if p, stack := recoverBig(func() { accepted = newExtractor(u.Ex).FileRequired(fileAPI{sc.e.fsys(), sc.c.Path}) }); p != nil {
-		send(msg{T: "viol", Key: u.Ex + ":" + shortSite(stack), What: fmt.Sprintf("%s FileRequired(%s) panicked: %v", u.Ex, sc.c.Path, p), Seq: 0})
+		send(msg{T: "viol", Key: causeKey(u.Ex, "", stack), What: fmt.Sprintf("%s FileRequired(%s) panicked: %v", u.Ex, sc.c.Path, p), Seq: 0})
 		send(msg{T: "done"})
 		return nil
 	}
@@ -761,7 +815,7 @@ func runExtractUnit(u unit) error {
 		case res.panicked:
 			first := strings.SplitN(res.stack, "\n", 2)[0]
 			_ = first
-			send(msg{T: "viol", Key: u.Ex + ":" + shortSite(res.stack), Seq: seq, Stack: trimStack(res.stack),
+			send(msg{T: "viol", Key: causeKey(u.Ex, "", res.stack), Seq: seq, Stack: trimStack(res.stack),
 				What: fmt.Sprintf("%s Extract(%s) panicked: %s [seed %s, %s, content %s]", u.Ex, sc.c.Path, res.pval, u.Seed, d, preview(data))})
 			exerc++
 			hashes = append(hashes, h)
@@ -918,7 +972,7 @@ func runContainUnit(u unit) error {
 		return fmt.Sprintf("[%s at %s, seed %s, %s, content %s]", u.Ex, sc.c.mutPath(), u.Seed, desc, preview(data))
 	}
 	if pval != nil {
-		send(msg{T: "viol", Key: u.Ex + ":scan-panic:" + shortSite(stack), Seq: u.Seq, Stack: trimStack(stack), What: fmt.Sprintf("Scan panicked: %v %s", pval, rp())})
+		send(msg{T: "viol", Key: causeKey(u.Ex, "scan-panic:", stack), Seq: u.Seq, Stack: trimStack(stack), What: fmt.Sprintf("Scan panicked: %v %s", pval, rp())})
 		send(msg{T: "contain", Obs: "scan panicked"})
 		return nil
 	}
